@@ -405,7 +405,8 @@ def series_of(tag, values, name=None):
             return pd.Series(values, dtype="string", name=name)
         return pd.Series(values, dtype=object, name=name)
     if tag.startswith("datetime64[ns,"):
-        return pd.Series(pd.DatetimeIndex([pd.NaT if v is None else v for v in values]), name=name).astype(tag)
+        vals = pd.to_datetime([pd.NaT if v is None else v for v in values], utc=True)
+        return pd.Series(vals, name=name).dt.tz_convert(_tz(tag)).astype(tag)
     if k == "dt":
         return pd.Series([pd.NaT if v is None else v for v in values], dtype="datetime64[ns]", name=name)
     if k == "td":
